@@ -2,6 +2,7 @@ import VarproModel.Drv.Parse
 import VarproModel.Drv.PBuilder
 import VarproModel.Drv.SepModel
 import VarproModel.Drv.State
+import VarproModel.Drv.Fit
 /-!
 # driver — reads a case file (line protocol), runs the executable model on every case and
 prints one verdict line per case.  Imports only `Core/` and `Drv/` (no Mathlib), so it links.
@@ -13,6 +14,7 @@ def dispatch (focus : String) (c : Case) : String :=
   | "pbuilder" => handlePBuilder c
   | "sepmodel" => handleSepModel c
   | "state" => handleState focus c
+  | "fit" => handleFit focus c
   | k => s!"corr=INTERNAL(unknown-kind-{k}) mon=ok nontrivial=0 tag=none"
 
 partial def loop (focus : String) (h : IO.FS.Stream) (cur : Option Case) : IO Unit := do
